@@ -71,22 +71,30 @@ def explore(ctx, tier, rng, search=False):
     k = 0
     thr_all = {'f': set(), 'l': set(L_THR), 'i': set(I_THR)}
     import inspect
+    import numpy as np
+    def pyfloat(f, l, i): return (f, l, i)
+    def npfloat64(f, l, i): return (np.float64(f), np.float64(l), np.float64(i))
+    def mixed(f, l, i): return (f, np.float64(l), np.float64(i))
+    carriers = [pyfloat, npfloat64, pyfloat, mixed]
+    ci = 0
     for c in cases:
         if c[0] == 'capri':
             _, f, l, i = c
             m, s = outs[k], outs[k + 1]; k += 2
+            # the values arrive as Python floats or as NumPy scalars (what the library's own get_rmsd returns): same class
+            car = carriers[ci % len(carriers)]; ci += 1
             try:
-                impl = ['OK', SS.compute_CapriClass(f, l, i)]
+                impl = ['OK', str(SS.compute_CapriClass(*car(f, l, i)))]
             except Exception as e:
                 impl = ['ERR', exc_class(e)]
-            feats = []
+            feats = ['carrier-' + car.__name__]
             if f in F_THR or l in L_THR or i in I_THR: feats.append('on-threshold')
             if any(math.nextafter(t, d) == x for t in F_THR for d in (-math.inf, math.inf) for x in (f,)) or \
                any(math.nextafter(t, d) == x for t in L_THR for d in (-math.inf, math.inf) for x in (l,)) or \
                any(math.nextafter(t, d) == x for t in I_THR for d in (-math.inf, math.inf) for x in (i,)):
                 feats.append('threshold-neighbour')
             if impl[0] == 'OK': feats.append('class-' + impl[1])
-            case = {'fn': 'capri', 'fnat': f, 'lrmsd': l, 'irmsd': i}
+            case = {'fn': 'capri', 'fnat': f, 'lrmsd': l, 'irmsd': i, 'carrier': car.__name__}
             rep.case(case, feats, nontrivial=('on-threshold' in feats or 'threshold-neighbour' in feats))
             if impl != s:
                 rep.mismatch('impl_vs_spec', case, impl=impl, spec=s, model=m)
@@ -124,9 +132,15 @@ def explore(ctx, tier, rng, search=False):
         else:
             d = outs[k]; k += 1
             sig = inspect.signature(SS.compute_DockQScore)
-            impl = [Fraction(sig.parameters['d1'].default), Fraction(sig.parameters['d2'].default)]
             case = {'fn': 'dockq_defaults'}
             rep.case(case, ['defaults'])
+            try:
+                impl = [Fraction(sig.parameters['d1'].default), Fraction(sig.parameters['d2'].default)]
+            except Exception:
+                # the defaults are not written as numbers in the signature any more: what they amount to is decided by the
+                # calls without d1/d2 above (interleaved with calls that pass other scales)
+                rep.notes.append('compute_DockQScore: defaults are not numeric literals in the signature')
+                continue
             if impl != [Fraction(17, 2), Fraction(3, 2)]:
                 rep.mismatch('impl_vs_spec', case, impl=impl, spec=[Fraction(17, 2), Fraction(3, 2)])
             elif impl != [Q(d[0]), Q(d[1])]:
@@ -142,8 +156,12 @@ def replay(ctx, case):
     if case['fn'] == 'capri':
         args = [Fraction(case[k]) for k in ('fnat', 'lrmsd', 'irmsd')]
         s = ctx.model.batch([['spec.capri'] + args])[0]
+        import numpy as np
+        f, l, i = case['fnat'], case['lrmsd'], case['irmsd']
+        if case.get('carrier') == 'npfloat64': f, l, i = np.float64(f), np.float64(l), np.float64(i)
+        if case.get('carrier') == 'mixed': l, i = np.float64(l), np.float64(i)
         try:
-            impl = ['OK', SS.compute_CapriClass(case['fnat'], case['lrmsd'], case['irmsd'])]
+            impl = ['OK', str(SS.compute_CapriClass(f, l, i))]
         except Exception as e:
             impl = ['ERR', exc_class(e)]
         return impl == s, f'implementation {impl} specification {s}'
